@@ -460,10 +460,10 @@ func genRange(r *hv.Rng, bases []string) (net.IP, net.IP) {
 	return b, ipAdd(b, 256*(1+r.Intn(300))+r.Intn(256))
 }
 
-var ipTexts = []string{"1.2.3.4", "8.8.8.8, 9.9.9.9", " 1.2.3.4 ,5.6.7.8", "2001:db8::1", "2001:DB8:0:0::1", "::ffff:1.2.3.4",
+var ipTexts = []string{"1.2.3.4", "8.8.8.8, 9.9.9.9", " 1.2.3.4 ,5.6.7.8", "9.8.7.6 , 5.6.7.8", "2001:db8::2 ,1.2.3.4", "7.7.7.7\t, 1.1.1.1", "2001:db8::1", "2001:DB8:0:0::1", "::ffff:1.2.3.4",
 	"bogus", "", "1.2.3.4.5", "01.2.3.4", "203.0.113.7", "10.0.0.1", "127.0.0.1", "bogus, 1.2.3.4", ", 1.2.3.4", "1.2.3.4,",
 	"::1", "fe80::1%eth0", "1.2.3.4:80", "[::1]", "256.1.1.1", "6.6.6.6 , 7.7.7.7 , 8.8.8.8"}
-var portTexts = []string{"80", "8080", "0", "443", "29999", "70000", "-1", "+80", "abc", "", "80, 443", "080", "8 0", "1e3"}
+var portTexts = []string{"80", "8080", "0", "443", "29999", "70000", "-1", "+80", "abc", "", "80, 443", "080", "8 0", "1e3", "81 , 443", "82 ,1", "1", "-0", "0", "-1", "0, 80"}
 var connToks = []string{"X-Real-Ip", "x-real-ip", "X-REAL-IP", "X-Real-Port", "x-real-port", "X-Forwarded-For", "x-forwarded-for",
 	"X-FORWARDED-FOR", "X-Forwarded-Port", "x-forwarded-port", "close", "keep-alive", "x-other", "X-Bfe-Ip", "X-Forwarded-Host", ""}
 var hdrNames = [][]string{{"X-Forwarded-For", "x-forwarded-for", "X-FORWARDED-FOR"}, {"X-Real-Ip", "X-Real-IP", "x-real-ip"},
@@ -520,7 +520,7 @@ func gen(r *hv.Rng, i int, tier string) (string, hv.Val) {
 	port := 30000 + r.Intn(30000)
 	// headers
 	var hs [][2]string
-	mode := r.Intn(6)
+	mode := r.Intn(7)
 	for k, names := range hdrNames {
 		p := 1
 		switch mode {
@@ -528,6 +528,11 @@ func gen(r *hv.Rng, i int, tier string) (string, hv.Val) {
 			p = 0
 		case 1: // everything
 			p = 4
+		case 2: // only the X-Forwarded-* pair (the fallback path of setClientAddr)
+			p = 4
+			if k == 1 || k == 2 {
+				p = 0
+			}
 		default:
 			p = r.Intn(5)
 		}
